@@ -16,13 +16,13 @@ FamsQuick == <<
 
 FamsThorough == <<
    [name |-> "http_req", toks |-> ReqTokens, pres |-> ReqPres, maxlen |-> 5, tail |-> 1, tailcls |-> ""],
-   [name |-> "http_resp", toks |-> RespTokens, pres |-> RespPres, maxlen |-> 6, tail |-> 1, tailcls |-> ""],
+   [name |-> "http_resp", toks |-> RespTokens, pres |-> RespPres, maxlen |-> 5, tail |-> 1, tailcls |-> ""],
    [name |-> "http_hdr", toks |-> HdrTokens, pres |-> HdrPres, maxlen |-> 5, tail |-> 1, tailcls |-> ""],
-   [name |-> "http_qry", toks |-> QryTokens, pres |-> NoPres, maxlen |-> 8, tail |-> 1, tailcls |-> ""],
+   [name |-> "http_qry", toks |-> QryTokens, pres |-> NoPres, maxlen |-> 7, tail |-> 1, tailcls |-> ""],
    [name |-> "http_chk", toks |-> ChkTokens, pres |-> NoPres, maxlen |-> 5, tail |-> 1, tailcls |-> ""],
    [name |-> "http_url", toks |-> UrlTokens, pres |-> NoPres, maxlen |-> 6, tail |-> 2, tailcls |-> "pct"],
    [name |-> "wsp", toks |-> WspTokens, pres |-> NoPres, maxlen |-> 6, tail |-> 1, tailcls |-> ""],
-   [name |-> "sdp", toks |-> SdpTokens, pres |-> SdpPres, maxlen |-> 5, tail |-> 2, tailcls |-> "crlf"] >>
+   [name |-> "sdp", toks |-> SdpTokens, pres |-> SdpPres, maxlen |-> 4, tail |-> 2, tailcls |-> "crlf"] >>
 
 FamsSim == <<
    [name |-> "http_req", toks |-> ReqTokens, pres |-> ReqPres, maxlen |-> 10, tail |-> 1, tailcls |-> ""],
